@@ -157,3 +157,35 @@ def consumer_table(prog, key):
     except Exception:
         return None
     return rows
+
+
+def allow_failure_table(prog):
+    """the `allow_failure` of resolved hooks whose configuration does not set it, for several type lists (challenge only, clean only,
+    both, file + post-operation): [(types, got)] or None. Expected: the built-in default (DEFAULT_HOOK_ALLOW_FAILURE) every time."""
+    from ..absint import variant
+    b = prog.body(ENTRY)
+    if b is None:
+        return None
+    HT = "acmed::config::HookType"
+    rows = []
+    try:
+        for types in (["ChallengeDns01"], ["ChallengeDns01Clean"], ["ChallengeDns01", "ChallengeDns01Clean"], ["FilePostCreate", "PostOperation"], ["ChallengeTlsAlpn01Clean", "ChallengeHttp01Clean"]):
+            hk = struct_val(prog, "acmed::config::Hook", {"name": vstr("X"), "hook_type": Val("list", [variant(HT, t) for t in types], "set"), "allow_failure": NONE, "args": NONE, "stdin": NONE,
+                                                           "stdin_str": NONE, "stdout": NONE, "stderr": NONE, "cmd": vstr("true")})
+            cfg = struct_val(prog, CFG, {"hook": Val("list", [hk]), "group": Val("list", [])})
+            it = Interp(b, success_model(b, None), 200000)
+            it.follow = lambda cs: (cs.name or "").startswith("acmed::config::")
+            name_params = [i for i in range(2, b.arg_count + 1) if b.local_ty(i) in ("&str", "&alloc::string::String")]
+            r = it.run({1: Val("ref", cfg), name_params[0]: Val("ref", vstr("X"))})
+            rv = r.ret.deref() if r.kind == "return" and r.ret is not None else None
+            if rv is None or rv.k != "adt" or not rv.extra or rv.extra[1] != "Ok" or rv.v[0].deref().k != "list" or len(rv.v[0].deref().v) != 1:
+                return None
+            h = rv.v[0].deref().v[0].deref()
+            fs = prog.adt_fields("acmed::hooks::Hook")
+            af = h.v[fs.index("allow_failure")].deref() if h.k == "adt" and "allow_failure" in fs else None
+            if af is None or af.k != "bool":
+                return None
+            rows.append((types, af.v))
+    except Exception:
+        return None
+    return rows
